@@ -277,7 +277,7 @@ AUDITED = {
 AUDITED.update({
     # filled in by hand after reading the code; `python gen_dispatch.py --hashes` prints the current values
     'grammar': '40afb0b6292301b7',
-    'protocol': '91510f4d9f412846',
+    'protocol': 'fe24e036be4a2d27',   # re-audited after a35fb43 (LeafNode.edits caps the Match cost; edit classes unchanged)
     'resolution': '58a2c94611ecc80a',
     'context': '42fbf238966f7e17',
     'main_dispatch': '4224ae09d71267ac',
